@@ -105,7 +105,9 @@ TIsApproxItems(ev) ==
       relative == FLe(FMulInt(eps, 16), na)                   \* clearly in the relative regime
       smax == VMaxAbs(sm)
   IN << Item("identical", Must(TRUE, ev.aa)), Item("identical_eq", Must(TRUE, ev.eq)),
-        Item("symmetric", IF ev.ab = ev.ba /\ ev.zs = ev.sz THEN 0 ELSE BADR) >>
+        Item("symmetric", IF ev.ab = ev.ba /\ ev.zs = ev.sz /\ ev.pq = ev.qp THEN 0 ELSE BADR),
+        \* norms straddling eps: the smaller norm is below eps, so the test is the absolute one and 0.1 eps passes
+        Item("straddle_accepted", IF ev.pq = 1 /\ ev.qp = 1 THEN 0 ELSE BADR) >>
      \o (IF relative /\ FLe(FMulInt(nd, 8), FMul(eps, na)) THEN << Item("rel_close_accepted", Must(TRUE, ev.ab)) >> ELSE << >>)
      \o (IF relative /\ FLe(FMulInt(FMul(eps, na), 8), nd) THEN << Item("rel_far_rejected", Must(FALSE, ev.ab)) >> ELSE << >>)
      \o (IF FLe(FMulInt(smax, 8), eps) THEN << Item("abs_close_accepted", Must(TRUE, ev.zs)) >> ELSE << >>)
